@@ -477,6 +477,10 @@ def run_chain(case):
                 break
             td, tc = rt[1], rc[1]
             c_tc, c_td = Lb.canon(tc, {"ids": {}}), Lb.canon(td, {"ids": {}})
+            if isinstance(c_tc, list) and c_tc[0] == "TC" and isinstance(c_tc[2], list) and c_tc[2][0] == "TD" and c_td[0] == "TD" and c_tc[2][1] != c_td[1]:
+                # dense vs lazily stacked container (torch.cat of lazy operands, finding D178): later steps are not comparable
+                flags.append("chain-cut:container-kind")
+                break
             if not (isinstance(c_tc, list) and c_tc[0] == "TC" and c_tc[1] == cls):
                 probs.append(f"step {i} {st[0]}: result is {Lb.short(c_tc)}, not an instance of {cls}")
                 break
